@@ -26,10 +26,10 @@ From Coq Require Import Sorting.Sorted.
 
 Theorem C03_phases_and_event_identity : forall eng pr m t tgt ev s0 s1,
   let d := find_domain m (t_src t) tgt in
-  let xs := exit_set_h m (s_cfg s0) (s_hist s0) d tgt in
+  let xs := ext_exit_set m (s_cfg s0) (s_hist s0) d tgt in
   let hist := is_history m tgt in
   let hts := if hist then resolve_history m (s_hist s0) tgt else [] in
-  let path := if hist then [] else path_to m tgt d in
+  let path := if hist then [] else ext_path m tgt d in
   (exit_states eng pr m (rev (sort_by (lt_depth_id m) xs)) (Some ev) ;;
    (fun s => exec_actions eng pr (t_actions t) ev s) ;;
    enter eng pr m path (Some ev) ;;
@@ -81,9 +81,9 @@ Theorem C03_transition_log : forall m eng pr t tgt ev s0 s1,
   NoDup (s_cfg s0) ->
   exec_external eng pr m t tgt ev s0 = (s1, None) ->
   let d := find_domain m (t_src t) tgt in
-  let xs := rev (sort_by (lt_depth_id m) (exit_set_h m (s_cfg s0) (s_hist s0) d tgt)) in
+  let xs := rev (sort_by (lt_depth_id m) (ext_exit_set m (s_cfg s0) (s_hist s0) d tgt)) in
   let hist := is_history m tgt in
-  let path := if hist then [] else path_to m tgt d in
+  let path := if hist then [] else ext_path m tgt d in
   let cp := if hist then combined_path m d (resolve_history m (s_hist s0) tgt) else [] in
   exists seg, s_log s1 = seg ++ s_log s0
     /\ leaves_of seg = xs
